@@ -1,7 +1,7 @@
 (* C05 proofs: a layout that meets the boolean obligations round-trips every row, every table of any length, and every
    construct (rows re-sorted into element lists by the builder), up to float32 rounding of the cells.
    PyTables, float32 and python's int()/== are Section variables with the hypotheses listed below. *)
-From Coq Require Import String List Bool Arith Lia.
+From Coq Require Import String List Bool Arith Lia Permutation.
 From LNML Require Import Model.H5.
 Import ListNotations.
 Open Scope string_scope.
@@ -532,6 +532,82 @@ Proof.
   assert (Hs : stores_ok wt = true) by (unfold all_stores_ok in Hst; rewrite forallb_forall in Hst; auto).
   destruct (select_row_wf F cval weq isint H4 g kind rows wt Hsel Hs Hfull Hty Hvar) as [Hk Hwf].
   subst kind. apply (gen_construct_roundtrip g Hall F r32 rint cval ofnat other weq isint H1 H2 H3 H4 wt Hin inst rows Hwf).
+Qed.
+
+(* ------------------------------------------------------------------ any number of constructs in one file *)
+Lemma all_some_inv {A} (l : list (option A)) r : all_some l = Some r -> l = map Some r.
+Proof.
+  revert r. induction l as [|[x|] t IH]; simpl; intros r H; try discriminate.
+  - inversion H. reflexivity.
+  - destruct (all_some t) as [r'|]; [|discriminate]. inversion H. simpl. f_equal. apply IH. reflexivity.
+Qed.
+
+Lemma map_some_inj {A} (a b : list A) : map Some a = map Some b -> a = b.
+Proof.
+  revert b. induction a as [|x a IH]; intros [|y b] H; simpl in H; try discriminate; auto.
+  inversion H. f_equal. auto.
+Qed.
+
+Lemma map_rel {A B C} (W : A -> option B) (L : B -> option C) (S : A -> C) :
+  forall cs nodes, map W cs = map Some nodes ->
+  (forall c n, In c cs -> W c = Some n -> forall s, L n = Some s -> s = S c) ->
+  (forall n, In n nodes -> exists s, L n = Some s) ->
+  map L nodes = map Some (map S cs).
+Proof.
+  induction cs as [|c t IH]; intros [|n ns] Hw One AS; simpl in Hw; try discriminate; auto.
+  inversion Hw as [[Hc Ht]]. simpl.
+  destruct (AS n (or_introl eq_refl)) as [s Es]. rewrite Es.
+  rewrite (One c n (or_introl eq_refl) Hc s Es). f_equal.
+  apply IH; auto.
+  - intros c' n' Hc' Hw' s' Hs'. apply (One c' n'); auto. right. exact Hc'.
+  - intros n' Hn'. apply AS. right. exact Hn'.
+Qed.
+
+Theorem gen_net_roundtrip (g : h5gen) (Hall : all_layouts_ok g = true) (Hst : all_stores_ok g = true) (Hgr : groups_ok g = true) :
+  forall (F : Type) (r32 rint : F -> F) (cval : cst -> F) (ofnat : nat -> F) (other : F) (weq : F -> F -> bool) (isint : F -> bool)
+         (order : list (node F) -> list (node F)),
+  (forall x, isint x = true -> rint (r32 x) = r32 x) -> (forall c, c <> CHalf -> rint (cval c) = cval c) ->
+  (forall c, r32 (cval c) = cval c) -> (forall x y, weq x y = true <-> x = y) ->
+  (forall l, Permutation (order l) l) ->
+  forall (cs : list (construct F)) nodes sems,
+  Forall (fun c => Forall (full_wf F cval (c_kind F c)) (c_rows F c) /\ Forall (fun r => typed F isint (snd r)) (c_rows F c)
+                   /\ Forall (fun r => In (fst r) (variants_of (c_kind F c))) (c_rows F c)) cs ->
+  write_net F r32 cval weq g cs = Some nodes ->
+  load_net F rint cval ofnat other weq order g nodes = Some sems ->
+  Permutation sems (map (sem32_construct F r32 cval weq) cs).
+Proof.
+  intros F r32 rint cval ofnat other weq isint order H1 H2 H3 H4 Hperm cs nodes sems Hwf Hw Hl.
+  set (L := load_node F rint cval ofnat other weq g).
+  (* one construct *)
+  assert (One : forall c n, In c cs -> write_construct F r32 cval weq g c = Some n ->
+                            forall s, L n = Some s -> s = sem32_construct F r32 cval weq c).
+  { intros c n Hc Hwc s Hs. rewrite Forall_forall in Hwf. destruct (Hwf c Hc) as [Hf [Ht Hv]].
+    unfold write_construct in Hwc.
+    destruct (select_table F cval weq g (c_kind F c) (c_rows F c)) as [wt|] eqn:Esel; [|discriminate].
+    destruct (gen_select_roundtrip g Hall Hst F r32 rint cval ofnat other weq isint H1 H2 H3 H4
+                (c_kind F c) (c_inst F c) (c_rows F c) wt Esel Hf Ht Hv) as [cells [Hcells Hout]].
+    rewrite Hcells in Hwc. inversion Hwc; subst n. clear Hwc.
+    unfold L, load_node in Hs. simpl in Hs.
+    destruct (load_rows F rint cval ofnat other weq (c_kind F c) (c_inst F c) (wt_names wt) (reader_of g (c_kind F c)) cells)
+      as [out|] eqn:El; [|discriminate].
+    inversion Hs; subst s. clear Hs. rewrite (Hout out eq_refl). unfold sem32_construct. f_equal. f_equal.
+    unfold attr_fields. rewrite map_map. apply map_ext_in. intros [[a f] arg] Hin. simpl. f_equal.
+    assert (Hwt : In wt (g_writer g) /\ wt_kind wt = c_kind F c).
+    { unfold select_table in Esel. apply find_some in Esel as [E1 E2]. apply andb_true_iff in E2 as [E2 _].
+      apply String.eqb_eq in E2. auto. }
+    destruct Hwt as [Hwt Hk]. destruct (gen_gattrs g Hgr) as [G _]. apply (G wt Hwt (c_attrs F c) a f arg). rewrite Hk. exact Hin. }
+  unfold write_net in Hw. apply all_some_inv in Hw. unfold load_net in Hl. apply all_some_inv in Hl. fold L in Hl.
+  (* every node loads to the image of its construct *)
+  assert (PL : Permutation (map L nodes) (map Some sems)).
+  { rewrite <- Hl. apply Permutation_map. apply Permutation_sym. apply Hperm. }
+  assert (AllSome : forall n, In n nodes -> exists s, L n = Some s).
+  { intros n Hn. assert (X : In (L n) (map Some sems)).
+    { apply (Permutation_in _ PL). apply in_map. exact Hn. }
+    apply in_map_iff in X as [s [E _]]. eauto. }
+  assert (E : map L nodes = map Some (map (sem32_construct F r32 cval weq) cs)).
+  { apply (map_rel (write_construct F r32 cval weq g) L (sem32_construct F r32 cval weq) cs nodes Hw One AllSome). }
+  rewrite E in PL. apply Permutation_sym in PL. apply Permutation_map_inv in PL as [l3 [E3 P3]].
+  apply map_some_inj in E3. subst l3. apply Permutation_sym. exact P3.
 Qed.
 
 Theorem gen_refuse (g : h5gen) : refuse_ok g = true -> forall n, In n must_refuse -> assoc n (g_refusals g) = Some true.
